@@ -987,3 +987,72 @@ def r_thread(E):
             res.samples.append({"builder": name, "parameters_reaching_the_result": sorted(flows & params)})
     res.floor = 40
     return res
+
+
+# ---------------------------------------------------------------------------------------------- R-ZEROCUT
+def _is_zero(e):
+    if isinstance(e, ast.Constant) and e.value == 0 and not isinstance(e.value, bool):
+        return True
+    if isinstance(e, ast.BinOp) and isinstance(e.op, ast.Mult):
+        return _is_zero(e.left) or _is_zero(e.right)
+    return False
+
+
+@rule("R-ZEROCUT")
+def r_zerocut(E):
+    pm = E.pm
+    res = RuleResult("R-ZEROCUT", "in model code an empty value (EmptyExplainableObject) is produced only under tests that "
+                                  "mean `nothing there` (emptiness, None, == 0): never under an ordering test against 0, "
+                                  "which would send negative quantities (legal for data_stored: deletion jobs) through "
+                                  "the `nothing` shortcut")
+    from ..astutil import path_conditions, positive_atoms, enorm
+    for mod, (rel, tree, src) in sorted(pm.modules.items()):
+        if not (rel.startswith("efootprint/core") or rel.startswith("efootprint/builders")):
+            continue
+        for n in ast.walk(tree):
+            if not isinstance(n, (ast.Return, ast.Assign)) or n.value is None:
+                continue
+            if not any(isinstance(c, ast.Call) and isinstance(c.func, ast.Name) and c.func.id == "EmptyExplainableObject"
+                       for c in ast.walk(n.value)):
+                continue
+            # the empty value is the statement's own value (possibly relabelled), not an accumulator's start
+            v = n.value
+            while isinstance(v, ast.Call) and isinstance(v.func, ast.Attribute) and v.func.attr in ("set_label",):
+                v = v.func.value
+            if not (isinstance(v, ast.Call) and isinstance(v.func, ast.Name) and v.func.id == "EmptyExplainableObject"):
+                continue
+            fn = n
+            while fn is not None and not isinstance(fn, ast.FunctionDef):
+                fn = getattr(fn, "_parent", None)
+            if fn is None:
+                continue
+            true, false = positive_atoms(path_conditions(n, fn))
+            if not true and not false:
+                continue      # unconditional initialisation
+            res.instances += 1
+            cls = fn
+            while cls is not None and not isinstance(cls, ast.ClassDef):
+                cls = getattr(cls, "_parent", None)
+            q = f"{cls.name}.{fn.name}" if cls is not None else fn.name
+            bad = None
+            for t in true + false:
+                for c in ast.walk(t):
+                    if isinstance(c, ast.Compare) and len(c.ops) == 1 and isinstance(c.ops[0], (ast.Lt, ast.LtE, ast.Gt, ast.GtE)):
+                        l, r = c.left, c.comparators[0]
+                        other = r if _is_zero(l) else l if _is_zero(r) else None
+                        if other is None:
+                            continue
+                        if isinstance(other, ast.Call) and isinstance(other.func, ast.Name) and other.func.id == "len":
+                            continue
+                        bad = c
+            if bad is not None:
+                res.findings.append(Finding(
+                    "R-ZEROCUT", f"{q} :: empty under {enorm(bad, fn)[:70]}",
+                    f"{q} yields an empty value on a path decided by the ordering test `{norm(bad)[:60]}`: a negative "
+                    f"quantity (a job that deletes data has data_stored < 0) takes the `nothing to compute` shortcut and "
+                    f"its contribution disappears — only `== 0` / emptiness may short-circuit", rel, n.lineno, q))
+            elif len(res.samples) < 4:
+                res.samples.append({"site": f"{rel}:{n.lineno} {q}", "under": [norm(t)[:50] for t in true] +
+                                    ["not " + norm(t)[:46] for t in false]})
+    res.floor = 5     # 7 conditional empty values on the pinned tree
+    return res
